@@ -141,33 +141,7 @@ def r_ledger2(root):
     if p:
         conds = [" ".join(ast.unparse(x.ast).split())[:50] for x in p if x.kind == "cond"][-3:]
         out.append(Finding("C14", "C14.e", M, "parse_tree_to_objgraph", "path via " + " / ".join(conds), "a load can finish normally without the parser being handed to the model (model._tx_parser) and without restoring the user classes: they stay instrumented after a successful load", witness="first rule is a match rule (the model is an int/str), metamodel has user classes"))
-    # ---------------- L6
-    rm = find(load(root, S), "ModelRepository.remove_model"); inst += 1
-    dels = [n for n in ast.walk(rm) if isinstance(n, ast.Delete)] + [c for c in calls(rm) if callee_name(c) == "pop" and "filename_to_model" in ast.unparse(c.func)]
-    if not dels: raise AnalysisError("remove_model: removal statement not found")
-    fi6 = sem.info(rm); ok6 = True
-    mparam = rm.args.args[1].arg
-    for d in dels:
-        key = d.targets[0].slice if isinstance(d, ast.Delete) else d.args[0]
-        kx = fi6.expand(key, at=d)
-        names = {x.id for x in ast.walk(kx) if isinstance(x, ast.Name)}
-        # the key must come from iterating the store (loop variable), not from the model argument
-        loopvars = {x.id for n in ast.walk(rm) if isinstance(n, (ast.For, ast.comprehension)) and "filename_to_model" in ast.unparse(n.iter) for x in ast.walk(n.target) if isinstance(x, ast.Name)}
-        from_model = mparam in names or any(isinstance(x, ast.Attribute) and isinstance(x.value, ast.Name) and x.value.id == mparam for x in ast.walk(kx))
-        # follow one more step: key variable assigned inside a loop over the store
-        if isinstance(key, ast.Name):
-            assigns = [n for n in ast.walk(rm) if isinstance(n, ast.Assign) and any(isinstance(x, ast.Name) and x.id == key.id for x in n.targets)]
-            srcs = set()
-            for a in assigns: srcs |= {x.id for x in ast.walk(a.value) if isinstance(x, ast.Name)}
-            from_model = from_model or mparam in srcs
-            from_store = bool(srcs & loopvars)
-        else: from_store = bool(names & loopvars)
-        if from_model or not from_store:
-            ok6 = False
-            for pr, cl in (("C18", "C18.f"), ("C15", "C15.g")):
-                out.append(Finding(pr, cl, S, "ModelRepository.remove_model", " ".join(ast.unparse(d).split())[:100], "the entry to remove is looked up under a key recomputed from the model (its file name); models loaded from a string are stored under synthetic keys (anonymous<i>) and are never removed after a failed load", witness="global repository, model_from_str without file name, unknown reference"))
-    ob("C18", "C18.f", S, "ModelRepository.remove_model", "entry located by scanning the store for the model", ok6)
-    ob("C15", "C15.g", S, "ModelRepository.remove_model", "entry located by scanning the store for the model", ok6)
+    # ---------------- L6 (C18.f / C15.g: how remove_model finds the entry) is decided by evaluation: C18.i / C18.j (sa/rules/c17.py, c17e.py)
     # ---------------- L7
     mm = load(root, MM)
     for q in ("TextXMetaModel._call_model_processors",):
